@@ -14,6 +14,8 @@ import (
 	"fmt"
 	"strconv"
 	"strings"
+
+	"golang.org/x/text/collate"
 )
 
 var fanKinds = []kindSpec{
@@ -358,4 +360,133 @@ func collEquivalent(g *gen, s string) string {
 	}
 	i := g.r.n(len(rs) + 1)
 	return string(rs[:i]) + "­" + string(rs[i:])
+}
+
+// longpath: keys that share a compressed path longer than the ten inline bytes, and probes
+// that differ from a stored key only inside the part of the path the descent skips without
+// looking (offsets 10 .. prefixLen-1), or end there.  Search and Delete of such look-alikes
+// must report absent/false and must leave the tree alone; only the final comparison of the
+// whole key at the leaf protects against them.
+func (g *gen) longpath(tid string, ks kindSpec, prof string) {
+	r := g.r
+	kind := ks.kind
+	variant := ks.variant
+	var mk func(stem []byte, tail string) string // key text from the variable-length part
+	var c *collate.Collator
+	buf := &collate.Buffer{}
+	switch kind {
+	case "alpha":
+		mk = func(stem []byte, tail string) string { return xhex(append(append([]byte{}, stem...), tail...)) }
+	case "coll":
+		c = collatorByName(collNameOf(variant))
+		mk = func(stem []byte, tail string) string {
+			t, _ := collKeyText(c, buf, string(stem)+tail)
+			return t
+		}
+	default: // compound with a trailing string field
+		sch := pick(r, []string{"str", "u1,str", "u2,str", "u8,str", "s4,str", "f4,u2,str", "u8,u8,str"})
+		kind = "comp:" + sch
+		var nums []string
+		for _, f := range strings.Split(sch, ",") {
+			if f != "str" {
+				nums = append(nums, g.numKeySmall(f))
+			}
+		}
+		mk = func(stem []byte, tail string) string {
+			return strings.Join(append(append([]string{}, nums...), xhex(append(append([]byte{}, stem...), tail...))), ",")
+		}
+		variant = ""
+	}
+	g.st.Kinds[kind+" "+variant+" longpath"]++
+	g.st.Histories++
+	g.emit("NEW %s %s %s", tid, kind, orDash(variant))
+	letters := []byte("abcdefghijklmnopqrstuvwxyz")
+	L := 11 + r.n(20)
+	stem := make([]byte, L)
+	for i := range stem {
+		if ks.kind == "coll" {
+			stem[i] = pick(r, letters)
+		} else {
+			stem[i] = pick(r, boundaryBytes)
+		}
+	}
+	tails := []string{"1", "2", "3x", "4", "zz"}
+	if ks.kind == "coll" {
+		tails = []string{"b", "c", "dx", "e", "zz"}
+	}
+	n := 2 + r.n(4)
+	var stored []string
+	for i := 0; i < n && i < len(tails); i++ {
+		k := mk(stem, tails[i])
+		stored = append(stored, k)
+		g.emit("I %s %s %d", tid, k, 1+r.n(1000))
+	}
+	// a second long path below the first branch point
+	if r.chance(50) {
+		sub := append(append([]byte{}, stem...), []byte(tails[0])...)
+		for i := 0; i < 12; i++ {
+			if ks.kind == "coll" {
+				sub = append(sub, pick(r, letters))
+			} else {
+				sub = append(sub, pick(r, boundaryBytes))
+			}
+		}
+		for _, t := range tails[:2] {
+			k := mk(sub, t)
+			stored = append(stored, k)
+			g.emit("I %s %s %d", tid, k, 1+r.n(1000))
+		}
+		stem = sub
+	}
+	g.emit("DUMP %s", tid)
+	alt := func(b byte) byte {
+		if ks.kind == "coll" {
+			for {
+				x := pick(r, letters)
+				if x != b {
+					return x
+				}
+			}
+		}
+		x := b ^ byte(1+r.n(3))
+		if x == 0 {
+			x = 2
+		}
+		return x
+	}
+	for round := 0; round < 2; round++ {
+		for i := 0; i < len(stem); i++ {
+			if i < 8 && !r.chance(20) {
+				continue
+			}
+			look := append([]byte{}, stem...)
+			look[i] = alt(look[i])
+			t := pick(r, tails[:n])
+			lk := mk(look, t)
+			g.emit("S %s %s", tid, lk)
+			g.emit("D %s %s", tid, lk)
+			if r.chance(30) {
+				ck := mk(stem[:i], "")
+				g.emit("S %s %s", tid, ck)
+				g.emit("D %s %s", tid, ck)
+			}
+			if r.chance(25) {
+				g.emit("SIZE %s", tid)
+				g.emit("ALL %s -", tid)
+			}
+		}
+		for _, k := range stored {
+			g.emit("S %s %s", tid, k)
+		}
+		g.emit("SIZE %s", tid)
+		g.emit("DUMP %s", tid)
+		if round == 0 && len(stored) > 2 { // merge on delete lengthens paths further
+			g.emit("D %s %s", tid, stored[1])
+			stored = append(stored[:1], stored[2:]...)
+		}
+	}
+	g.emit("ALL %s -", tid)
+	g.emit("BWD %s -", tid)
+	g.emit("MIN %s", tid)
+	g.emit("MAX %s", tid)
 }
